@@ -1,12 +1,12 @@
 (* C01, part c01json - the JSON/map form of serix round-trips: MapEncode/JSONEncode then MapDecode/JSONDecode
    gives back every value that form can express.  Statements only.  [jencode]/[jdecode true] model
-   map_encode.go / map_decode.go as they are now (after commits 4262ca0, 81cafca, 8fc6fcd, 9d20a03, bb76e84, 18e6a53, b4a46ea, 74faee1, 83b7f6c, c9f8064). *)
+   map_encode.go / map_decode.go as they are now (after commits 4262ca0, 81cafca, 8fc6fcd, 9d20a03, bb76e84, 18e6a53, b4a46ea, 74faee1, 83b7f6c, c9f8064, b9e1ae8, 221b25a, c016509). *)
 From Coq Require Import ZArith NArith List Bool String.
 From Verif.C01_SerixJson Require Import Model Ind ProofsLeaf ProofsC01 ProofsC02.
 Import ListNotations.
 
 (* For EVERY schema of the modelled fragment (bool; int8..uint64; string; []byte and [n]byte, also with a registered
-   object code (object form), [n]byte also behind a pointer; *big.Int; time.Time;
+   object code (object form; []B of a named byte type B included), [n]byte also behind a pointer; *big.Int; time.Time;
    structs by value or pointer with required / optional / omitempty / inlined fields, embedded structs and object
    codes; slices; arrays; maps;
    interfaces with registered alternatives - nested arbitrarily) and EVERY value of that type.
@@ -70,7 +70,7 @@ Definition ex_schema : schema :=
                           (5%N, SByteArrO false 2 (Some 5%N) "pubKeyHash")]);
      ("i3", FReq, SIface [(7%N, ex_alt); (8%N, SStruct true (Some 8%N) [("w", FReq, SBool)]);
                           (5%N, SByteArrO false 2 (Some 5%N) "pubKeyHash")]);
-     ("cb", FOmit, SBytesO 6 "hx")]%string.
+     ("cb", FOmit, SBytesO 6 "hx" false); ("nb", FReq, SBytesO 9 "data" true)]%string.
 Definition ex_value : value :=
   VList [VInt (-128); VInt (-9223372036854775808); VInt 18446744073709551615; VStr "hi"; VBool true;
          VStr "ab"; VStr "xy"; VInt 255; VInt 5; VNil;
@@ -81,7 +81,7 @@ Definition ex_value : value :=
          VInt 0; VList [VStr "z"]; VInt zero_time; VNil;
          VList [VInt 4; VPtr (VList [VBool true])];
          VStr "ab"; VPtr (VStr "cd"); VPtr (VStr "e");
-         VIface 8 (VPtr (VList [VBool false])); VIface 5 (VStr "gh"); VStr "i"]%string.
+         VIface 8 (VPtr (VList [VBool false])); VIface 5 (VStr "gh"); VStr "i"; VStr "jk"]%string.
 
 Example C01_json_roundtrip_nonvacuous :
   wf_schema ex_schema = true /\ has_type ex_schema ex_value = true /\
@@ -98,7 +98,8 @@ Example C01_json_roundtrip_nonvacuous :
               ("pa", JObj [("type", JNum 5); ("pubKeyHash", JStr "0x6364")]); ("pb", JStr "0x65");
               ("i2", JObj [("type", JNum 8); ("w", JBool false)]);
               ("i3", JObj [("type", JNum 5); ("pubKeyHash", JStr "0x6768")]);
-              ("cb", JObj [("type", JNum 6); ("hx", JStr "0x69")])]%string).
+              ("cb", JObj [("type", JNum 6); ("hx", JStr "0x69")]);
+              ("nb", JObj [("type", JNum 9); ("data", JStr "0x6a6b")])]%string).
 Proof. vm_compute. repeat split. Qed.
 
 (* The pinned code did not round-trip arrays of non-byte elements (JSON analogue of D01a, repaired by 81cafca),
